@@ -611,3 +611,331 @@ Theorem C10_mt_max_under_min_key_unsound :
     ~ mentry_ok s (mop_code MMin) [f; g] r.
 Proof. exact max_under_min_key_unsound. Qed.
 Print Assumptions C10_mt_max_under_min_key_unsound.
+
+(** * Function level for every terminal type, and for MTBDD<F64> (package C10f)
+
+    The apply algorithms of oxidd-rules-mtbdd are generic in [T: NumberBase];
+    DD/MtG.v is the model of DD/ApplyMtbdd.v with the terminal type abstracted
+    (class [talg]), DD/MtG*.v prove the function-level theorems from the scalar
+    laws collected in the class [tlaws].  [C10_mtg_*]: for EVERY terminal
+    algebra that satisfies the laws (no axioms).  [C10_f64_*]: the float
+    terminal type [F64] (normalised binary64, Num/F64.v) satisfies the laws
+    ([C10_f64_laws]; Flocq, hence the classical axioms of the reals), and the
+    theorems read for MTBDD<F64>.  The names of DD/MtG*.v shadow those of
+    DD/ApplyMtbdd*.v inside the module only. *)
+
+From OxiVerif Require DD.MtG DD.MtGBase DD.MtGProofs DD.MtGIte DD.MtGRestrict DD.MtGTop
+  DD.MtF64 DD.MtF64Laws DD.MtF64Proofs.
+
+Module C10F.
+Import MtG MtGBase MtGProofs MtGIte MtGRestrict MtGTop MtF64 MtF64Laws MtF64Proofs.
+
+(** ** generic: any terminal type with the laws of [tlaws] *)
+
+(** every arm of [terminal_bin] *)
+Theorem C10_mtg_terminal_bin_sound :
+  forall (TA : talg), tlaws TA ->
+  forall gt s op f g vf vg phi psi, MtOK s ->
+  DenM s f phi -> DenM s g psi -> mt_view s f = Some vf -> mt_view s g = Some vg ->
+  tb_post s op f g vf vg phi psi (mt_tb gt s op f g vf vg).
+Proof. exact @mt_tb_sound. Qed.
+Print Assumptions C10_mtg_terminal_bin_sound.
+
+(** [apply_bin]: the pointwise lifting, table only extended, invariants kept,
+    an existing reference of the result function returned unchanged *)
+Theorem C10_mtg_apply_bin_lifts :
+  forall (TA : talg), tlaws TA ->
+  forall gt (C : Type) cget cadd, lossy cget cadd ->
+  forall op fuel s (c : C) f g phi psi,
+  MtOK s -> MCacheOK cget s c -> DenM s f phi -> DenM s g psi ->
+  nlevels s - Nat.min (rlevel s f) (rlevel s g) < fuel ->
+  exists s' c' r, mt_apply_bin gt C cget cadd fuel s c op f g = Some (s', c', r) /\
+    MtOK s' /\ mext s s' /\ MCacheOK cget s' c' /\
+    DenM s' r (fun c0 => mop_eval op (phi c0) (psi c0)) /\
+    (forall r0, DenM s r0 (fun c0 => mop_eval op (phi c0) (psi c0)) -> s' = s /\ r = r0).
+Proof. exact @mt_apply_bin_ok. Qed.
+Print Assumptions C10_mtg_apply_bin_lifts.
+
+Theorem C10_mtg_ite_lifts :
+  forall (TA : talg), tlaws TA ->
+  forall (C : Type) cget cadd, lossy cget cadd ->
+  forall fuel s (c : C) f g h phi psi theta,
+  MtOK s -> MCacheOK cget s c -> DenM s f phi -> DenM s g psi -> DenM s h theta ->
+  nlevels s - Nat.min (Nat.min (rlevel s f) (rlevel s g)) (rlevel s h) < fuel ->
+  exists s' c' r, mt_apply_ite C cget cadd fuel s c f g h = Some (s', c', r) /\
+    MtOK s' /\ mext s s' /\ MCacheOK cget s' c' /\
+    DenM s' r (fun c0 => if t_is_zero (phi c0) then theta c0 else psi c0) /\
+    (forall r0, DenM s r0 (fun c0 => if t_is_zero (phi c0) then theta c0 else psi c0) ->
+       s' = s /\ r = r0).
+Proof. exact @mt_apply_ite_ok. Qed.
+Print Assumptions C10_mtg_ite_lifts.
+
+Theorem C10_mtg_restrict_lifts :
+  forall (TA : talg), tlaws TA ->
+  forall (C : Type) cget cadd, lossy cget cadd ->
+  forall fuel s (c : C) f vars phi lits,
+  MtOK s -> MCacheOK cget s c -> DenM s f phi -> Cube s vars lits ->
+  nlevels s - rlevel s f < fuel ->
+  exists s' c' r, mt_restrict C cget cadd fuel s c f vars = Some (s', c', r) /\
+    MtOK s' /\ mext s s' /\ MCacheOK cget s' c' /\
+    DenM s' r (fun c0 => phi (ovr lits c0)) /\
+    (forall r0, DenM s r0 (fun c0 => phi (ovr lits c0)) -> s' = s /\ r = r0).
+Proof. exact @mt_restrict_ok. Qed.
+Print Assumptions C10_mtg_restrict_lifts.
+
+(** canonicity inside one table *)
+Theorem C10_mtg_canonical :
+  forall (TA : talg) s r1 r2 phi, MtOK s -> DenM s r1 phi -> DenM s r2 phi -> r1 = r2.
+Proof. exact @denm_canon. Qed.
+Print Assumptions C10_mtg_canonical.
+
+(** ** MTBDD<F64> *)
+
+(** the float terminal type as the code defines it satisfies every scalar law
+    the function-level development needs *)
+Theorem C10_f64_laws : tlaws f64_alg.
+Proof. exact f64_laws. Qed.
+Print Assumptions C10_f64_laws.
+
+(** the operators of the model at [f64_alg] are the operations of Num/F64.v
+    (Flocq binary64, round to nearest even, then the normalisation of [F64::from]) *)
+Theorem C10_f64_operators :
+  forall o (x y : N), Z.of_N (mop_eval (TA := f64_alg) o x y) = f64_mop o (Z.of_N x) (Z.of_N y).
+Proof. exact f64_mop_eval. Qed.
+Print Assumptions C10_f64_operators.
+
+(** a short-cut the code does not have would not be a law: x * 0 = 0 fails
+    for x = +infinity (NaN), also on normalised values; and the zero
+    short-cuts it has would fail on the operand -0.0, which the normalisation
+    rules out *)
+Theorem C10_f64_mul_zero_not_law :
+  exists t x : N, t_is_zero (talg := f64_alg) t = true /\ twf (A := f64_alg) x /\
+    t_mul (talg := f64_alg) x t <> t /\ t_mul (talg := f64_alg) t x <> t /\
+    t_mul (talg := f64_alg) x t = t_nan (talg := f64_alg).
+Proof. exact f64_mul_zero_not_law. Qed.
+Print Assumptions C10_f64_mul_zero_not_law.
+
+Theorem C10_f64_zero_shortcut_needs_normalisation :
+  let negz := Z.to_N f64_NEG_ZERO_bits in
+  (twf (A := f64_alg) negz -> False) /\
+  t_add (talg := f64_alg) negz t_zero <> negz /\ t_sub (talg := f64_alg) negz t_zero <> negz.
+Proof.
+  exact (conj f64_zero_shortcuts_need_normalisation (proj2 f64_zero_shortcut_fails_on_negzero)).
+Qed.
+Print Assumptions C10_f64_zero_shortcut_needs_normalisation.
+
+(** the invariant of MTBDD<F64> tables and its checker *)
+Theorem C10_f64_invariant :
+  forall s,
+  (f64m_ok_b s = true <-> MtOK (TA := f64_alg) s) /\
+  (MtOK (TA := f64_alg) s <->
+   (WF s /\ s_kind s = KMtbdd /\ forall t c, term_val s t = Some c -> f64_normal (Z.of_N c))).
+Proof. exact f64_invariant. Qed.
+Print Assumptions C10_f64_invariant.
+
+(** apply = pointwise lifting of the IEEE-754 operation + normalisation *)
+Theorem C10_f64_apply_pointwise :
+  forall gt (C : Type) cget cadd, lossy cget cadd ->
+  forall op fuel s (c : C) f g,
+  MtOK (TA := f64_alg) s -> MCacheOK (TA := f64_alg) cget s c -> ref_ok s f -> ref_ok s g ->
+  FUEL s <= fuel ->
+  exists s' c' r,
+    mt_apply_bin (TA := f64_alg) gt C cget cadd fuel s c op f g = Some (s', c', r) /\
+    MtOK (TA := f64_alg) s' /\ mext s s' /\ MCacheOK (TA := f64_alg) cget s' c' /\ ref_ok s' r /\
+    forall c0, bchoice c0 -> exists x y z : N,
+      fvalue s f c0 x /\ fvalue s g c0 y /\ fvalue s' r c0 z /\
+      Z.of_N z = f64_mop op (Z.of_N x) (Z.of_N y).
+Proof. exact f64_apply_pointwise. Qed.
+Print Assumptions C10_f64_apply_pointwise.
+
+(** in terms of assignments (variable order applied) *)
+Theorem C10_f64_apply_assignments :
+  forall gt (C : Type) cget cadd, lossy cget cadd ->
+  forall op s (c : C) f g,
+  MtOK (TA := f64_alg) s -> MCacheOK (TA := f64_alg) cget s c -> ref_ok s f -> ref_ok s g ->
+  exists s' c' r, mt_apply_bin (TA := f64_alg) gt C cget cadd (FUEL s) s c op f g = Some (s', c', r) /\
+    MtOK (TA := f64_alg) s' /\ mext s s' /\ ref_ok s' r /\
+    forall a, mfun_of (TA := f64_alg) s' r a
+              = mop_eval (TA := f64_alg) op (mfun_of (TA := f64_alg) s f a) (mfun_of (TA := f64_alg) s g a).
+Proof. exact (mt_apply_bin_mfun (TA := f64_alg)). Qed.
+Print Assumptions C10_f64_apply_assignments.
+
+(** the result does not depend on the cache contents, the cache
+    implementation or the operand order ... *)
+Theorem C10_f64_cache_transparent :
+  forall gt1 gt2 (C1 C2 : Type) cget1 cadd1 cget2 cadd2,
+  lossy cget1 cadd1 -> lossy cget2 cadd2 ->
+  forall op s (c1 : C1) (c2 : C2) f g fuel1 fuel2 s1 c1' r1 s2 c2' r2,
+  MtOK (TA := f64_alg) s -> MCacheOK (TA := f64_alg) cget1 s c1 -> MCacheOK (TA := f64_alg) cget2 s c2 ->
+  ref_ok s f -> ref_ok s g -> FUEL s <= fuel1 -> FUEL s <= fuel2 ->
+  mt_apply_bin (TA := f64_alg) gt1 C1 cget1 cadd1 fuel1 s c1 op f g = Some (s1, c1', r1) ->
+  mt_apply_bin (TA := f64_alg) gt2 C2 cget2 cadd2 fuel2 s c2 op f g = Some (s2, c2', r2) ->
+  forall c0, bchoice c0 -> semk s1 (FUEL s1) r1 c0 = semk s2 (FUEL s2) r2 c0.
+Proof. exact (mt_apply_bin_cache_transparent (TA := f64_alg)). Qed.
+Print Assumptions C10_f64_cache_transparent.
+
+(** ... nor on the history: repeated in any later state of the table it
+    returns the identical reference and creates nothing *)
+Theorem C10_f64_history_independent :
+  forall gt1 gt2 (C1 C2 : Type) cget1 cadd1 cget2 cadd2,
+  lossy cget1 cadd1 -> lossy cget2 cadd2 ->
+  forall op s (c1 : C1) f g fuel1 s1 c1' r1,
+  MtOK (TA := f64_alg) s -> MCacheOK (TA := f64_alg) cget1 s c1 -> ref_ok s f -> ref_ok s g ->
+  FUEL s <= fuel1 ->
+  mt_apply_bin (TA := f64_alg) gt1 C1 cget1 cadd1 fuel1 s c1 op f g = Some (s1, c1', r1) ->
+  forall s2 (c2 : C2) fuel2, MtOK (TA := f64_alg) s2 -> mext s1 s2 ->
+  MCacheOK (TA := f64_alg) cget2 s2 c2 -> FUEL s2 <= fuel2 ->
+  exists c2', mt_apply_bin (TA := f64_alg) gt2 C2 cget2 cadd2 fuel2 s2 c2 op f g = Some (s2, c2', r1).
+Proof. exact (mt_apply_bin_history_independent (TA := f64_alg)). Qed.
+Print Assumptions C10_f64_history_independent.
+
+(** canonicity of MTBDD<F64>: equal values under all choices = equal
+    references; the result of an operation is THE reference of its meaning *)
+Theorem C10_f64_canonical :
+  (forall s r1 r2,
+     MtOK (TA := f64_alg) s -> ref_ok s r1 -> ref_ok s r2 ->
+     (forall c0, bchoice c0 -> semk s (FUEL s) r1 c0 = semk s (FUEL s) r2 c0) -> r1 = r2) /\
+  (forall gt (C : Type) cget cadd, lossy cget cadd ->
+   forall op fuel s (c : C) f g s' c' r,
+   MtOK (TA := f64_alg) s -> MCacheOK (TA := f64_alg) cget s c -> ref_ok s f -> ref_ok s g ->
+   FUEL s <= fuel ->
+   mt_apply_bin (TA := f64_alg) gt C cget cadd fuel s c op f g = Some (s', c', r) ->
+   forall r0, ref_ok s' r0 ->
+     (forall c0, bchoice c0 -> exists x y,
+         mvalue (TA := f64_alg) s f c0 x /\ mvalue (TA := f64_alg) s g c0 y /\
+         mvalue (TA := f64_alg) s' r0 c0 (mop_eval (TA := f64_alg) op x y)) ->
+     r0 = r).
+Proof. exact (conj f64_canonical (mt_apply_bin_result_unique (TA := f64_alg))). Qed.
+Print Assumptions C10_f64_canonical.
+
+(** NaN propagates pointwise *)
+Theorem C10_f64_nan :
+  forall gt (C : Type) cget cadd, lossy cget cadd ->
+  forall op fuel s (c : C) f g s' c' r,
+  MtOK (TA := f64_alg) s -> MCacheOK (TA := f64_alg) cget s c -> ref_ok s f -> ref_ok s g ->
+  FUEL s <= fuel ->
+  mt_apply_bin (TA := f64_alg) gt C cget cadd fuel s c op f g = Some (s', c', r) ->
+  forall c0, bchoice c0 ->
+    (fvalue s f c0 (Z.to_N f64_nan) \/ fvalue s g c0 (Z.to_N f64_nan)) ->
+    fvalue s' r c0 (Z.to_N f64_nan).
+Proof. exact f64_apply_nan. Qed.
+Print Assumptions C10_f64_nan.
+
+(** every terminal stored is normalised: no -0.0, a single NaN pattern, one
+    terminal per value - in every table satisfying the invariant, in
+    particular in the result table of every operation *)
+Theorem C10_f64_normalised :
+  (forall s, MtOK (TA := f64_alg) s ->
+     (forall t c, term_val s t = Some c ->
+        f64_normal (Z.of_N c) /\ Z.of_N c <> f64_NEG_ZERO_bits /\
+        (is_nan 53 1024 (b64_of_bits (Z.of_N c)) = true -> Z.of_N c = f64_NAN_bits)) /\
+     (forall t1 t2 c, term_val s t1 = Some c -> term_val s t2 = Some c -> t1 = t2) /\
+     (forall t1 t2 c1 c2, term_val s t1 = Some c1 -> term_val s t2 = Some c2 ->
+        is_nan 53 1024 (b64_of_bits (Z.of_N c1)) = true ->
+        is_nan 53 1024 (b64_of_bits (Z.of_N c2)) = true -> t1 = t2)) /\
+  (forall gt (C : Type) cget cadd, lossy cget cadd ->
+   forall op fuel s (c : C) f g s' c' r,
+   MtOK (TA := f64_alg) s -> MCacheOK (TA := f64_alg) cget s c -> ref_ok s f -> ref_ok s g ->
+   FUEL s <= fuel ->
+   mt_apply_bin (TA := f64_alg) gt C cget cadd fuel s c op f g = Some (s', c', r) ->
+   f64_terms_normalised s').
+Proof. exact (conj f64_ok_terms_normalised f64_apply_normalised). Qed.
+Print Assumptions C10_f64_normalised.
+
+(** ite: the else-operand where the condition is 0, the then-operand elsewhere
+    (the code's release behaviour for conditions that are not 0-1-valued:
+    every non-zero value, including NaN, selects the then-operand) *)
+Theorem C10_f64_ite :
+  forall (C : Type) cget cadd, lossy cget cadd ->
+  forall s (c : C) f g h,
+  MtOK (TA := f64_alg) s -> MCacheOK (TA := f64_alg) cget s c -> ref_ok s f -> ref_ok s g -> ref_ok s h ->
+  exists s' c' r, mt_apply_ite (TA := f64_alg) C cget cadd (FUEL s) s c f g h = Some (s', c', r) /\
+    MtOK (TA := f64_alg) s' /\ mext s s' /\ ref_ok s' r /\
+    forall a, mfun_of (TA := f64_alg) s' r a =
+      if f64_is_zero (Z.of_N (mfun_of (TA := f64_alg) s f a))
+      then mfun_of (TA := f64_alg) s h a else mfun_of (TA := f64_alg) s g a.
+Proof. exact (mt_apply_ite_mfun (TA := f64_alg)). Qed.
+Print Assumptions C10_f64_ite.
+
+(** restrict: the operand's function with the cube's variables forced *)
+Theorem C10_f64_restrict :
+  forall (C : Type) cget cadd, lossy cget cadd ->
+  forall s (c : C) f vars lits,
+  MtOK (TA := f64_alg) s -> MCacheOK (TA := f64_alg) cget s c -> ref_ok s f ->
+  Cube (TA := f64_alg) s vars lits ->
+  exists s' c' r, mt_restrict (TA := f64_alg) C cget cadd (FUEL s) s c f vars = Some (s', c', r) /\
+    MtOK (TA := f64_alg) s' /\ mext s s' /\ ref_ok s' r /\
+    forall a, mfun_of (TA := f64_alg) s' r a = mfun_of (TA := f64_alg) s f (force_asg s lits a).
+Proof. exact (mt_restrict_mfun (TA := f64_alg)). Qed.
+Print Assumptions C10_f64_restrict.
+
+(** ite and restrict return the identical reference in every later state *)
+Theorem C10_f64_ite_restrict_history_independent :
+  (forall (C1 C2 : Type) cget1 cadd1 cget2 cadd2, lossy cget1 cadd1 -> lossy cget2 cadd2 ->
+   forall s (c1 : C1) f g h fuel1 s1 c1' r1,
+   MtOK (TA := f64_alg) s -> MCacheOK (TA := f64_alg) cget1 s c1 -> ref_ok s f -> ref_ok s g -> ref_ok s h ->
+   FUEL s <= fuel1 ->
+   mt_apply_ite (TA := f64_alg) C1 cget1 cadd1 fuel1 s c1 f g h = Some (s1, c1', r1) ->
+   forall s2 (c2 : C2) fuel2, MtOK (TA := f64_alg) s2 -> mext s1 s2 ->
+   MCacheOK (TA := f64_alg) cget2 s2 c2 -> FUEL s2 <= fuel2 ->
+   exists c2', mt_apply_ite (TA := f64_alg) C2 cget2 cadd2 fuel2 s2 c2 f g h = Some (s2, c2', r1)) /\
+  (forall (C1 C2 : Type) cget1 cadd1 cget2 cadd2, lossy cget1 cadd1 -> lossy cget2 cadd2 ->
+   forall s (c1 : C1) f vars lits fuel1 s1 c1' r1,
+   MtOK (TA := f64_alg) s -> MCacheOK (TA := f64_alg) cget1 s c1 -> ref_ok s f ->
+   Cube (TA := f64_alg) s vars lits -> FUEL s <= fuel1 ->
+   mt_restrict (TA := f64_alg) C1 cget1 cadd1 fuel1 s c1 f vars = Some (s1, c1', r1) ->
+   forall s2 (c2 : C2) fuel2, MtOK (TA := f64_alg) s2 -> mext s1 s2 ->
+   MCacheOK (TA := f64_alg) cget2 s2 c2 -> FUEL s2 <= fuel2 ->
+   exists c2', mt_restrict (TA := f64_alg) C2 cget2 cadd2 fuel2 s2 c2 f vars = Some (s2, c2', r1)).
+Proof.
+  exact (conj (mt_apply_ite_history_independent (TA := f64_alg))
+              (mt_restrict_history_independent (TA := f64_alg))).
+Qed.
+Print Assumptions C10_f64_ite_restrict_history_independent.
+
+(** cubes: the checker establishes [Cube]; a cube denotes the product of its literals *)
+Theorem C10_f64_cube :
+  (forall s, MtOK (TA := f64_alg) s -> forall fuel r lits,
+     f64m_cube_lits fuel s r = Some lits -> Cube (TA := f64_alg) s r lits) /\
+  (forall s r lits, MtOK (TA := f64_alg) s -> Cube (TA := f64_alg) s r lits ->
+     DenM (TA := f64_alg) s r (fun c => if lits_hold lits c then Z.to_N f64_one else Z.to_N f64_zero)).
+Proof. exact (conj (cube_lits_sound (TA := f64_alg)) (cube_den (TA := f64_alg))). Qed.
+Print Assumptions C10_f64_cube.
+
+(** constant (through [F64::from]), var, eval *)
+Theorem C10_f64_const :
+  forall s x s' r, MtOK (TA := f64_alg) s -> f64m_const s x = (s', r) ->
+  MtOK (TA := f64_alg) s' /\ mext s s' /\ ref_ok s' r /\
+  (forall c0, fvalue s' r c0 (Z.to_N (f64_from_bits x))) /\
+  Z.of_N (Z.to_N (f64_from_bits x)) = f64_from_bits x /\
+  (forall r0, DenM (TA := f64_alg) s r0 (fun _ => Z.to_N (f64_from_bits x)) -> s' = s /\ r = r0).
+Proof. exact f64_const_ok. Qed.
+Print Assumptions C10_f64_const.
+
+Theorem C10_f64_var :
+  forall s v, MtOK (TA := f64_alg) s -> v < nlevels s ->
+  exists lvl s' r, nth_error (s_v2l s) v = Some lvl /\ f64m_var s v = Some (s', r) /\
+    MtOK (TA := f64_alg) s' /\ mext s s' /\ ref_ok s' r /\
+    forall c0, bchoice c0 ->
+      fvalue s' r c0 (if Nat.eqb (c0 lvl) 0 then Z.to_N f64_one else Z.to_N f64_zero).
+Proof. exact f64_var_ok. Qed.
+Print Assumptions C10_f64_var.
+
+Theorem C10_f64_eval :
+  forall s r (a : asg) args, MtOK (TA := f64_alg) s -> ref_ok s r ->
+  (forall v b, In (v, b) args -> b = a v /\ v < nlevels s) ->
+  (forall v, v < nlevels s -> In v (map fst args)) ->
+  f64m_eval s r args = Some (mfun_of (TA := f64_alg) s r a).
+Proof. exact (mt_eval_assignment (TA := f64_alg)). Qed.
+Print Assumptions C10_f64_eval.
+
+(** the hypotheses are satisfiable: the fresh two-variable manager and the
+    table the model builds from it (x0, x1, f = 0.5 * x0 + x1) *)
+Theorem C10_f64_hypotheses_satisfiable :
+  MtOK (TA := f64_alg) exf0 /\ MtOK (TA := f64_alg) exf1 /\ MCacheOK (TA := f64_alg) ac_get exf1 [] /\
+  ref_ok exf1 exf_f /\ ref_ok exf1 exf_x0 /\ Cube (TA := f64_alg) exf1 exf_x0 [(0, true)] /\
+  fvt exf1 exf_f = [Some f64_zero; Some f64_HALF; Some f64_one; Some f64_1P5].
+Proof. exact f64_hypotheses_satisfiable. Qed.
+Print Assumptions C10_f64_hypotheses_satisfiable.
+
+End C10F.
